@@ -63,3 +63,18 @@ def waiter_cases(max_ops, consume_only):
     pre = st.lists(st.tuples(st.just('add'), wname, st.sampled_from([1, 1, 2, 3])).map(list), min_size=0, max_size=3)
     return st.builds(lambda t, p, ops: {'tb': t, 'ops': p + ops + [['advance', 1]]}, tb, pre,
                      st.lists(waiter_ops(beh), min_size=6, max_size=max_ops))
+
+
+def overcommit_cases():
+    """Pools driven over capacity: several unit reservations, explicit reductions below usage, then partial and
+    full releases / merges in generated order (capacity 'explicitly reduced below current usage')."""
+    res = st.sampled_from([{'a': 1}, {'a': 1}, {'a': 2}, {'a': 1, 'b': 1}, {'b': 1}])
+    reserve = st.tuples(st.just('reserve'), res).map(list)
+    reduce_ = st.tuples(st.just('add'), st.sampled_from(['a', 'a', 'b']), st.sampled_from([-1, -1, -2, -3])).map(list)
+    grow = st.tuples(st.just('add'), st.sampled_from(['a', 'b']), st.sampled_from([1, 2])).map(list)
+    release = st.tuples(st.just('release'), st.integers(0, 5),
+                        st.sampled_from([None, {'a': 1}, {'a': 1}, {'b': 1}, {'a': 2}, {'a': 1, 'b': 1}])).map(list)
+    merge = st.tuples(st.just('merge'), st.integers(0, 5), st.integers(0, 5)).map(list)
+    tail = st.lists(st.one_of(reduce_, reduce_, release, release, release, merge, reserve, grow), min_size=3, max_size=14)
+    return st.builds(lambda ca, cb, rs, t: {'ops': [['add', 'a', ca], ['add', 'b', cb]] + rs + t},
+                     st.sampled_from([2, 3, 4]), st.sampled_from([1, 2]), st.lists(reserve, min_size=2, max_size=4), tail)
